@@ -98,14 +98,61 @@ def make_cases(chk):
     return gen.twin_plate_cases(chk.seed) + gen.whole_source_cases(chk.seed) + gen.repeated_well_cases(chk.seed) + gen.twin_lot_cases(chk.seed) + gen.long_decimal_cases(chk.seed) + gen.big_plate_cases(chk.seed) + gens
 
 
+def runtime_precision_probe():
+    """internal_precision raised (and moles stored in mol) in a running session, as one would for sub-nanomole work: a transfer of half
+    a stock, of all of it, and a dispensing into wells conserve a solute present at 0.12 nmol to the precision now configured"""
+    from pyplate import Substance, Container, Plate
+    from pyplate.pyplate import config
+    fails = []
+    saved = (config.internal_precision, config.moles_storage_unit)
+    try:
+        config.internal_precision, config.moles_storage_unit = 15, 'mol'
+        w = Substance.liquid('water', 18.0153, 1)
+        atp = Substance.solid('ATP', 507.18)
+        def total(s, *objs):
+            t = F(0)
+            for o in objs:
+                for c in ([o] if isinstance(o, Container) else list(o.wells.flatten())):
+                    t += F(c.contents.get(s, 0))
+            return t
+        stock = Container('stock', '10 mL', [(w, '1 mL'), (atp, '0.12 nmol')])
+        tube = Container('tube', '10 mL')
+        plate = Plate('p', '500 uL', rows=2, columns=3)
+        for label, f, before in (("Container.transfer(stock, tube, '500 uL')", lambda: Container.transfer(stock, tube, '500 uL'), (stock, tube)),
+                                 ("Container.transfer(stock, tube, '1 mL')", lambda: Container.transfer(stock, tube, '1 mL'), (stock, tube)),
+                                 ("Plate.transfer(stock, plate, '100 uL')", lambda: Plate.transfer(stock, plate, '100 uL'), (stock, plate))):
+            try:
+                after = f()
+            except Exception as e:  # noqa
+                fails.append(f"with internal_precision = 15 and moles stored in mol (set in a running session), {label} raised {type(e).__name__}: {e}")
+                continue
+            for s in (atp, w):
+                b, a = total(s, *before), total(s, *after)
+                if abs(a - b) > F(1, 10**13) + abs(b) * F(1, 10**12):
+                    fails.append(f"with internal_precision = 15 and moles stored in mol (set in a running session), {label}: {s.name} {float(b)!r} mol before, {float(a)!r} mol after")
+    finally:
+        config.internal_precision, config.moles_storage_unit = saved
+    return fails
+
+
 def run(chk, gate, status):
     gens = make_cases(chk)
     chk.assumptions += ["amounts are compared within 1e-8 storage units per operation (x1000/density for enzymes) and 2e-8 relative",
                         "regions are passed to the model as resolved index lists (the selector grammar is C13's subject)"]
     cov = histcheck.run(chk, gens, oracle, 'C01', RULE, nontrivial)
     cov['operations_under_configuration_variants'] = histcheck.variants(chk, gens, oracle, 'C01v', limit=8 if chk.tier == 'quick' else 60)
+    for msg in runtime_precision_probe()[:2]:
+        cov['oracle_failures'] += 1
+        chk.violation(msg, {'kind': 'runtime-precision'})
     return cov
 
 
 def replay(path):
+    import json
+    if json.load(open(path)).get('kind') == 'runtime-precision':
+        f = runtime_precision_probe()
+        for m in f:
+            print('PROPERTY FAILS:', m)
+        print('property', 'FAILS' if f else 'HOLDS', 'on this input')
+        return 1 if f else 0
     return histcheck.replay(path, oracle)
